@@ -1,7 +1,9 @@
 /-
-The delivery-order theorem at model level: in a class of states where `saveBlock` never
-refuses a block whose parent is stored (`Accepting`), delivering a finite parent-closed set
-of blocks in ANY order stores all of them and leaves the pool empty.
+Delivery runs at model level.  General part (no acceptance hypothesis): one delivery step and
+a whole run keep "no orphan whose parent is stored", and every delivered block is stored, waits
+in the pool, or was refused by `saveBlock` (and dropped).  Under an accepting class of states
+(`Accepting`) nothing is refused: delivering a finite parent-closed set of blocks in ANY order
+stores all of them and leaves the pool empty.
 -/
 import BytomModel.Lemmas.NodeConnect
 open BytomModel.Node BytomModel.Lemmas.NodeAlist BytomModel.Lemmas.NodePool BytomModel.Lemmas.NodeFrame
@@ -9,17 +11,413 @@ open BytomModel.Lemmas.NodeOrphans BytomModel.Lemmas.NodeEvents BytomModel.Lemma
 
 namespace BytomModel.Lemmas.NodeDelivery
 
+def deliver (s : State) (b : Header) : State := (s.processBlock b).1
+
+/-- no orphan whose parent is stored is left in the pool -/
+def NoLeft (s : State) : Prop := ∀ o ∈ s.orphans, ¬ stored s o.parent
+
+/-- `R` is closed under everything block processing does to the state (for delivered blocks in `P`) -/
+structure StepClosed (R : State → Prop) (P : Header → Prop) : Prop where
+  loop : LoopClosed R
+  save : ∀ st b, R st → P b → stored st b.parent → R (st.saveBlock b).1
+  add : ∀ st b, R st → P b → R (st.orphanAdd b)
+  reorg : ∀ st h, R st → R (st.tryReorganize h).1
+
+/-- the states block processing can reach from `s0` -/
+inductive RunReach (s0 : State) : State → Prop
+  | refl : RunReach s0 s0
+  | save {st : State} (b : Header) : RunReach s0 st → RunReach s0 (st.saveBlock b).1
+  | drop {st : State} (o : Nat) : RunReach s0 st → RunReach s0 (st.orphanDelete o)
+  | add {st : State} (b : Header) : RunReach s0 st → RunReach s0 (st.orphanAdd b)
+  | reorg {st : State} (h : Nat) : RunReach s0 st → RunReach s0 (st.tryReorganize h).1
+
+theorem runReach_closed (s0 : State) : StepClosed (RunReach s0) (fun _ => True) :=
+  ⟨⟨fun _ ob h _ _ => RunReach.save ob h, fun _ o h => RunReach.drop o h⟩,
+   fun _ b h _ _ => RunReach.save b h, fun _ b h _ => RunReach.add b h, fun _ x h => RunReach.reorg x h⟩
+
+/-- outcome of one delivery -/
+structure StepOutG (U : Universe) (R : State → Prop) (s : State) (b : Header) (s' : State) : Prop where
+  inv : Inv U s'
+  r : R s'
+  noLeft : NoLeft s'
+  defs : s'.defs = s.defs
+  mono : ∀ i, stored s i → stored s' i
+  newStored : ∀ i, stored s' i → stored s i ∨ i = b.id ∨ ∃ o ∈ s.orphans, o.id = i
+  poolSub : ∀ o ∈ s'.orphans, o ∈ s.orphans ∨ o = b
+  poolFate : ∀ o ∈ s.orphans, stored s' o.id ∨ o ∈ s'.orphans ∨ Refused R o
+  delivered : stored s' b.id ∨ b ∈ s'.orphans ∨ Refused R b
+
+/-- **one delivery, no acceptance hypothesis**: the invariant and "no orphan with a stored parent" are
+    kept; every old pool member and the delivered block is stored, in the pool, or was refused -/
+theorem deliver_step_gen {U : Universe} {R : State → Prop} {P : Header → Prop} (hC : StepClosed R P)
+    {s : State} {b : Header} (hI : Inv U s) (hr : R s) (hNL : NoLeft s)
+    (hb : Coh U b) (hPb : P b) (hfresh : ¬ stored s b.id) (hnp : ¬ s.isOrphan b.id = true)
+    (hfuel : s.orphans.length ≤ s.defs.length) : StepOutG U R s b (deliver s b) := by
+  have hne : ¬ Early s b := by
+    intro he
+    have := he.1
+    unfold stored at hfresh
+    simp only [Bool.or_eq_true] at this
+    rcases this with h | h
+    · exact hfresh h
+    · exact hnp h
+  unfold deliver
+  rcases processBlock_cases s b with ⟨he, _⟩ | ⟨_, hnpar, e⟩ | ⟨_, hpar, hf, e⟩ | ⟨_, hpar, hok, e, _⟩
+  · exact absurd he hne
+  · -- parent unknown: the block joins the pool
+    rw [e]
+    have hp := orphanAdd_poolOnly s b
+    have hst : ∀ i, stored (s.orphanAdd b) i ↔ stored s i := fun i => by rw [stored_iff, stored_iff, hp.headers]
+    have ho : (s.orphanAdd b).orphans = s.orphans ++ [b] := by rw [orphanAdd_orphans, if_neg hnp]
+    refine ⟨inv_orphanAdd hI hb hfresh, hC.add s b hr hPb, ?_, hp.defs, fun i h => (hst i).mpr h,
+      fun i h => Or.inl ((hst i).mp h), ?_, ?_, ?_⟩
+    · intro o hm
+      rw [hst]
+      rw [ho, List.mem_append] at hm
+      rcases hm with hm | hm
+      · exact hNL o hm
+      · simp at hm; subst hm; exact hnpar
+    · intro o hm
+      rw [ho, List.mem_append] at hm
+      rcases hm with hm | hm
+      · exact Or.inl hm
+      · simp at hm; exact Or.inr hm
+    · intro o hm; right; left; rw [ho]; exact List.mem_append_left _ hm
+    · right; left; rw [ho]; simp
+  · -- `saveBlock` refuses the delivered block itself
+    rw [e]
+    have hc := saveBlock_false hf
+    have hst := stored_saveBlock_false hf
+    refine ⟨inv_saveBlock hI hb, hC.save s b hr hPb hpar, ?_, hc.defs, fun i h => (hst i).mpr h,
+      fun i h => Or.inl ((hst i).mp h), ?_, ?_, Or.inr (Or.inr ⟨s, hr, hpar, hf⟩)⟩
+    · intro o hm; rw [hst]; rw [hc.orphans] at hm; exact hNL o hm
+    · intro o hm; rw [hc.orphans] at hm; exact Or.inl hm
+    · intro o hm; right; left; rw [hc.orphans]; exact hm
+  · -- parent stored: the block and everything waiting under it is connected or dropped
+    rw [e]
+    have hr1 := hC.save s b hr hPb hpar
+    have hI1 := inv_saveBlock hI hb
+    have g1 := grow_saveBlock hI hb
+    have hst1 := stored_saveBlock_true hok
+    obtain ⟨_, _, _, _, ho1, _⟩ := saveBlock_true_fields hok
+    have hs1 : stored (s.saveBlock b).1 b.id := (hst1 _).mpr (Or.inl rfl)
+    have hsub1 : ∀ x, x ∈ (s.saveBlock b).1.orphans → x ∈ s.orphans := fun x hx => g1.mem hx
+    obtain ⟨g2, r2, snd2, cmp2⟩ := ssbSpec hC.loop (s.saveBlock b).1.fuel (s.saveBlock b).1 b.id hI1 hr1 hs1
+    have hlen : (s.saveBlock b).1.orphans.length ≤ (s.saveBlock b).1.fuel := by
+      have h1 : (s.saveBlock b).1.orphans.length ≤ s.orphans.length := g1.sub.length_le
+      have h2 := fuel_ge_defs (s.saveBlock b).1
+      rw [g1.defs] at h2
+      omega
+    have cmp := cmp2 hlen
+    have g02 := g1.trans g2
+    have hst3 : ∀ i, stored ((connect s b).tryReorganize (connect s b).bestChain).1 i ↔ stored (connect s b) i := by
+      intro i; rw [stored_iff, stored_iff]; simp
+    have ho3 : ((connect s b).tryReorganize (connect s b).bestChain).1.orphans = (connect s b).orphans := by simp
+    -- a pool member of `s1` whose parent is stored at the end was visited
+    have hvis : ∀ x ∈ (s.saveBlock b).1.orphans, stored (connect s b) x.parent →
+        x.parent = b.id ∨ NewS (s.saveBlock b).1 (connect s b) x.parent := by
+      intro x hx1 hpx
+      by_cases e1 : stored (s.saveBlock b).1 x.parent
+      · rcases (hst1 _).mp e1 with e2 | e2
+        · exact Or.inl e2
+        · exact absurd e2 (hNL x (hsub1 x hx1))
+      · exact Or.inr ⟨hpx, e1⟩
+    have hnl2 : NoLeft (connect s b) := by
+      intro x hx hpx
+      have hx1 : x ∈ (s.saveBlock b).1.orphans := g2.mem hx
+      exact (cmp x hx1 (hvis x hx1 hpx)).1 hx
+    refine ⟨inv_tryReorganize g2.inv _, hC.reorg _ _ r2, ?_, ?_, ?_, ?_, ?_, ?_, ?_⟩
+    · intro o hm
+      rw [hst3]
+      rw [ho3] at hm
+      exact hnl2 o hm
+    · simp only [tryReorganize_defs]; exact g02.defs
+    · intro i h; exact (hst3 i).mpr (g02.mono i h)
+    · intro i h
+      have h2 := (hst3 i).mp h
+      by_cases e1 : stored (s.saveBlock b).1 i
+      · rcases (hst1 i).mp e1 with e2 | e2
+        · exact Or.inr (Or.inl e2)
+        · exact Or.inl e2
+      · obtain ⟨o, hm, hid⟩ := snd2.wasPool i ⟨h2, e1⟩
+        exact Or.inr (Or.inr ⟨o, hsub1 o hm, hid⟩)
+    · intro o hm
+      rw [ho3] at hm
+      exact Or.inl (g02.mem hm)
+    · intro o hm
+      have hm1 : o ∈ (s.saveBlock b).1.orphans := by
+        rw [ho1, List.mem_filter]
+        refine ⟨hm, ?_⟩
+        simp only [bne_iff_ne, ne_eq]
+        intro e1
+        exact hnp ((isOrphan_iff s b.id).mpr (List.mem_map.mpr ⟨o, hm, e1⟩))
+      by_cases e1 : o ∈ (connect s b).orphans
+      · right; left; rw [ho3]; exact e1
+      · have k := cmp o hm1 (snd2.gone o ⟨hm1, e1⟩)
+        by_cases e2 : stored (connect s b) o.id
+        · exact Or.inl ((hst3 _).mpr e2)
+        · exact Or.inr (Or.inr (k.2 e2))
+    · exact Or.inl ((hst3 _).mpr (g2.mono _ hs1))
+
+/-- **`processBlock` keeps "no orphan whose parent is stored"** — no acceptance hypothesis, any block
+    (new, already stored, or already in the pool) -/
+theorem noLeft_processBlock {U : Universe} {s : State} (hI : Inv U s) (hNL : NoLeft s) {b : Header} (hb : Coh U b)
+    (hfuel : s.orphans.length ≤ s.defs.length) : NoLeft (s.processBlock b).1 := by
+  rcases processBlock_cases s b with ⟨_, e, _⟩ | ⟨_, hnpar, e⟩ | ⟨_, _, hf, e⟩ | ⟨_, _, hok, e, _⟩
+  · rw [e]; exact hNL
+  · rw [e]
+    have hp := orphanAdd_poolOnly s b
+    have hst : ∀ i, stored (s.orphanAdd b) i ↔ stored s i := fun i => by rw [stored_iff, stored_iff, hp.headers]
+    intro o hm
+    rw [hst]
+    rw [orphanAdd_orphans] at hm
+    split at hm
+    · exact hNL o hm
+    · rcases List.mem_append.mp hm with hm | hm
+      · exact hNL o hm
+      · simp at hm; subst hm; exact hnpar
+  · rw [e]
+    have hc := saveBlock_false hf
+    intro o hm
+    rw [stored_saveBlock_false hf]
+    rw [hc.orphans] at hm
+    exact hNL o hm
+  · rw [e]
+    have hI1 := inv_saveBlock hI hb
+    have g1 := grow_saveBlock hI hb
+    have hst1 := stored_saveBlock_true hok
+    have hs1 : stored (s.saveBlock b).1 b.id := (hst1 _).mpr (Or.inl rfl)
+    obtain ⟨g2, _, _, cmp2⟩ := ssbSpec (U := U) loopClosed_true (s.saveBlock b).1.fuel (s.saveBlock b).1 b.id hI1 trivial hs1
+    have hlen : (s.saveBlock b).1.orphans.length ≤ (s.saveBlock b).1.fuel := by
+      have h1 : (s.saveBlock b).1.orphans.length ≤ s.orphans.length := g1.sub.length_le
+      have h2 := fuel_ge_defs (s.saveBlock b).1
+      rw [g1.defs] at h2
+      omega
+    have cmp := cmp2 hlen
+    intro x hx hpx
+    simp only [tryReorganize_orphans] at hx
+    have hpx' : stored (connect s b) x.parent := by
+      rw [stored_iff] at hpx ⊢; simpa using hpx
+    have hx1 : x ∈ (s.saveBlock b).1.orphans := g2.mem hx
+    have hcase : x.parent = b.id ∨ NewS (s.saveBlock b).1 (connect s b) x.parent := by
+      by_cases e1 : stored (s.saveBlock b).1 x.parent
+      · rcases (hst1 _).mp e1 with e2 | e2
+        · exact Or.inl e2
+        · exact absurd e2 (hNL x (g1.mem hx1))
+      · exact Or.inr ⟨hpx', e1⟩
+    exact (cmp x hx1 hcase).1 hx
+
+/-- a valid block of the universe: a copy of the block with its id, one higher than its parent -/
+structure Valid (U : Universe) (b : Header) : Prop where
+  coh : Coh U b
+  height : b.height = U.height b.parent + 1
+
+/-- invariant of a delivery run: `D` is the list of blocks delivered so far -/
+structure RunInvG (U : Universe) (R : State → Prop) (s0 : State) (D : List Header) (s : State) : Prop where
+  inv : Inv U s
+  r : R s
+  noLeft : NoLeft s
+  defs : s.defs = s0.defs
+  mono : ∀ i, stored s0 i → stored s i
+  storedSub : ∀ i, stored s i → stored s0 i ∨ i ∈ D.map (·.id)
+  poolSub : ∀ o ∈ s.orphans, o ∈ D
+  fate : ∀ d ∈ D, stored s d.id ∨ d ∈ s.orphans ∨ Refused R d
+
+theorem run_deliver_gen {U : Universe} {R : State → Prop} {P : Header → Prop} (hC : StepClosed R P) {s0 : State}
+    (σ : List Header) :
+    ∀ (D : List Header) (s : State), RunInvG U R s0 D s → ((D ++ σ).map (·.id)).Nodup →
+      (∀ b ∈ D ++ σ, P b ∧ Coh U b ∧ ¬ stored s0 b.id) → (D ++ σ).length ≤ s0.defs.length →
+      RunInvG U R s0 (D ++ σ) (σ.foldl deliver s) := by
+  induction σ with
+  | nil => intro D s h _ _ _; simpa using h
+  | cons b σ ih =>
+    intro D s h hnd hall hlen
+    have hbm : b ∈ D ++ b :: σ := by simp
+    obtain ⟨hPb, hcb, hfr⟩ := hall b hbm
+    have hbD : b.id ∉ D.map (·.id) := by
+      rw [List.map_append, List.nodup_append] at hnd
+      intro hm
+      exact hnd.2.2 _ hm b.id (by simp) rfl
+    have hfresh : ¬ stored s b.id := by
+      intro hs
+      rcases h.storedSub _ hs with e | e
+      · exact hfr e
+      · exact hbD e
+    have hnp : ¬ s.isOrphan b.id = true := by
+      rw [isOrphan_iff]
+      intro hm
+      obtain ⟨o, ho, hid⟩ := List.mem_map.mp hm
+      exact hbD (List.mem_map.mpr ⟨o, h.poolSub o ho, hid⟩)
+    have hfuel : s.orphans.length ≤ s.defs.length := by
+      have h1 : (s.orphans.map (·.id)).Subperm (D.map (·.id)) := by
+        apply List.subperm_of_subset h.inv.pool.nodup
+        intro i hi
+        obtain ⟨o, ho, hid⟩ := List.mem_map.mp hi
+        exact List.mem_map.mpr ⟨o, h.poolSub o ho, hid⟩
+      have h2 := h1.length_le
+      simp only [List.length_map, List.length_append] at h2 hlen
+      rw [h.defs]
+      omega
+    have st := deliver_step_gen hC h.inv h.r h.noLeft hcb hPb hfresh hnp hfuel
+    have hnext : RunInvG U R s0 (D ++ [b]) (deliver s b) := by
+      refine ⟨st.inv, st.r, st.noLeft, by rw [st.defs, h.defs], fun i hi => st.mono i (h.mono i hi), ?_, ?_, ?_⟩
+      · intro i hi
+        rcases st.newStored i hi with e | e | ⟨o, ho, hid⟩
+        · rcases h.storedSub i e with e' | e'
+          · exact Or.inl e'
+          · right; rw [List.map_append]; exact List.mem_append_left _ e'
+        · right; rw [e]; simp
+        · right; rw [List.map_append]
+          exact List.mem_append_left _ (List.mem_map.mpr ⟨o, h.poolSub o ho, hid⟩)
+      · intro o ho
+        rcases st.poolSub o ho with e | e
+        · exact List.mem_append_left _ (h.poolSub o e)
+        · rw [e]; simp
+      · intro d hd
+        rw [List.mem_append] at hd
+        rcases hd with hd | hd
+        · rcases h.fate d hd with e | e | e
+          · exact Or.inl (st.mono _ e)
+          · exact st.poolFate d e
+          · exact Or.inr (Or.inr e)
+        · simp at hd; subst hd; exact st.delivered
+    have := ih (D ++ [b]) (deliver s b) hnext (by simpa using hnd) (by simpa using hall) (by simpa using hlen)
+    simpa using this
+
+theorem alist_nil_of_get_none {α : Type} {l : List (Nat × α)} (h : ∀ p, alistGet l p = none) : l = [] := by
+  cases l with
+  | nil => rfl
+  | cons p l =>
+    have := h p.1
+    rw [alistGet_cons] at this
+    simp at this
+
+/-- `b` waits in the pool below a block of the set that was refused (and dropped) -/
+inductive Blocked (R : State → Prop) (s' : State) (bs : List Header) : Header → Prop
+  | parentRefused {b c : Header} : c ∈ bs → c.id = b.parent → ¬ stored s' c.id → c ∉ s'.orphans → Refused R c →
+      Blocked R s' bs b
+  | parentBlocked {b c : Header} : c ∈ bs → c.id = b.parent → c ∈ s'.orphans → Blocked R s' bs c → Blocked R s' bs b
+
+/-- **delivery of a parent-closed block set in any order, no acceptance hypothesis** (any configuration,
+    blocks may carry sup links): at the end no pool member has a stored parent, and every block of the
+    set is stored, or was refused by `saveBlock` in a state reached by the run and is NOT in the pool,
+    or waits in the pool with an unstored parent below such a refused block -/
+theorem delivery_fate {U : Universe} {s0 : State} (hI0 : Inv U s0) (he : s0.orphans = []) {bs : List Header}
+    (hv : ∀ b ∈ bs, Valid U b) (hnd : (bs.map (·.id)).Nodup) (hfresh : ∀ b ∈ bs, ¬ stored s0 b.id)
+    (hclosed : ∀ b ∈ bs, stored s0 b.parent ∨ b.parent ∈ bs.map (·.id)) (hdefs : bs.length ≤ s0.defs.length)
+    {σ : List Header} (hσ : σ.Perm bs) :
+    Inv U (σ.foldl deliver s0) ∧ NoLeft (σ.foldl deliver s0) ∧
+    (∀ o ∈ (σ.foldl deliver s0).orphans, o ∈ bs) ∧
+    (∀ i, stored (σ.foldl deliver s0) i → stored s0 i ∨ i ∈ bs.map (·.id)) ∧
+    (∀ i, stored s0 i → stored (σ.foldl deliver s0) i) ∧
+    ∀ b ∈ bs,
+      stored (σ.foldl deliver s0) b.id ∨
+      (¬ stored (σ.foldl deliver s0) b.id ∧ b ∉ (σ.foldl deliver s0).orphans ∧ Refused (RunReach s0) b) ∨
+      (b ∈ (σ.foldl deliver s0).orphans ∧ ¬ stored (σ.foldl deliver s0) b.parent ∧
+        Blocked (RunReach s0) (σ.foldl deliver s0) bs b) := by
+  have h0 : RunInvG U (RunReach s0) s0 [] s0 := by
+    refine ⟨hI0, RunReach.refl, ?_, rfl, fun _ h => h, fun _ h => Or.inl h, ?_, ?_⟩
+    · intro o ho; rw [he] at ho; simp at ho
+    · intro o ho; rw [he] at ho; simp at ho
+    · intro d hd; simp at hd
+  have hr := run_deliver_gen (runReach_closed s0) σ [] s0 h0 (by simpa using (hσ.map (·.id)).nodup_iff.mpr hnd)
+    (by
+      intro b hb
+      simp only [List.nil_append] at hb
+      have hb' := hσ.mem_iff.mp hb
+      exact ⟨trivial, (hv b hb').coh, hfresh b hb'⟩)
+    (by simpa [hσ.length_eq] using hdefs)
+  simp only [List.nil_append] at hr
+  set s' := σ.foldl deliver s0
+  have hfate : ∀ b ∈ bs, stored s' b.id ∨ b ∈ s'.orphans ∨ Refused (RunReach s0) b :=
+    fun b hb => hr.fate b (hσ.mem_iff.mpr hb)
+  -- pool members are blocked (induction on the height)
+  have hblk : ∀ n, ∀ b ∈ bs, b.height = n → b ∈ s'.orphans → Blocked (RunReach s0) s' bs b := by
+    intro n
+    induction n using Nat.strongRecOn with
+    | _ n ihn =>
+      intro b hb hh hbo
+      have hnp := hr.noLeft b hbo
+      rcases hclosed b hb with e | e
+      · exact absurd (hr.mono _ e) hnp
+      · obtain ⟨c, hc, hid⟩ := List.mem_map.mp e
+        have hcs : ¬ stored s' c.id := by rw [hid]; exact hnp
+        by_cases hco : c ∈ s'.orphans
+        · have hlt : c.height < n := by
+            have h1 := (hv b hb).height
+            have h2 := (hv c hc).coh.2
+            rw [← hid, ← h2] at h1
+            omega
+          exact Blocked.parentBlocked hc hid hco (ihn c.height hlt c hc rfl hco)
+        · rcases hfate c hc with e1 | e1 | e1
+          · exact absurd e1 hcs
+          · exact absurd e1 hco
+          · exact Blocked.parentRefused hc hid hcs hco e1
+  refine ⟨hr.inv, hr.noLeft, fun o ho => hσ.mem_iff.mp (hr.poolSub o ho), ?_, hr.mono, ?_⟩
+  · intro i hi
+    rcases hr.storedSub i hi with e | e
+    · exact Or.inl e
+    · exact Or.inr ((hσ.map (·.id)).mem_iff.mp e)
+  · intro b hb
+    by_cases e1 : stored s' b.id
+    · exact Or.inl e1
+    · by_cases e2 : b ∈ s'.orphans
+      · exact Or.inr (Or.inr ⟨e2, hr.noLeft b e2, hblk b.height b hb rfl e2⟩)
+      · rcases hfate b hb with e3 | e3 | e3
+        · exact absurd e3 e1
+        · exact absurd e3 e2
+        · exact Or.inr (Or.inl ⟨e1, e2, e3⟩)
+
+/-! ### accepting classes: nothing is refused -/
+
 /-- `Good` is a class of states, closed under the steps of block processing, in which
     `saveBlock` never refuses a block satisfying `B` whose parent is stored -/
 structure Accepting (B : Header → Prop) (Good : State → Prop) : Prop where
   save : ∀ s b, Good s → B b → stored s b.parent → (s.saveBlock b).2 = true ∧ Good (s.saveBlock b).1
   add : ∀ s b, Good s → Good (s.orphanAdd b)
+  drop : ∀ s o, Good s → Good (s.orphanDelete o)
   reorg : ∀ s h, Good s → Good (s.tryReorganize h).1
 
-def deliver (s : State) (b : Header) : State := (s.processBlock b).1
+/-- `Good`, and every pool member is a `B`-block -/
+def GoodB (B : Header → Prop) (Good : State → Prop) (s : State) : Prop := Good s ∧ ∀ o ∈ s.orphans, B o
 
-/-- no orphan whose parent is stored is left in the pool -/
-def NoLeft (s : State) : Prop := ∀ o ∈ s.orphans, ¬ stored s o.parent
+theorem accepting_closed {B : Header → Prop} {Good : State → Prop} (hA : Accepting B Good) :
+    StepClosed (GoodB B Good) B := by
+  have hsave : ∀ st b, GoodB B Good st → B b → stored st b.parent → GoodB B Good (st.saveBlock b).1 := by
+    intro st b hr hb hps
+    obtain ⟨hok', hg'⟩ := hA.save st b hr.1 hb hps
+    refine ⟨hg', ?_⟩
+    obtain ⟨_, _, _, _, ho', _⟩ := saveBlock_true_fields hok'
+    intro o hmo
+    rw [ho'] at hmo
+    exact hr.2 o (List.mem_filter.mp hmo).1
+  refine ⟨⟨fun st ob hr hm hps => hsave st ob hr (hr.2 ob hm) hps, ?_⟩, hsave, ?_, ?_⟩
+  · intro st o hr
+    refine ⟨hA.drop st o hr.1, ?_⟩
+    intro x hx
+    rw [orphanDelete_orphans] at hx
+    exact hr.2 x (List.mem_filter.mp hx).1
+  · intro st b hr hb
+    refine ⟨hA.add st b hr.1, ?_⟩
+    intro x hx
+    rw [orphanAdd_orphans] at hx
+    split at hx
+    · exact hr.2 x hx
+    · rcases List.mem_append.mp hx with h | h
+      · exact hr.2 x h
+      · simp at h; subst h; exact hb
+  · intro st h hr
+    refine ⟨hA.reorg st h hr.1, ?_⟩
+    intro x hx
+    simp only [tryReorganize_orphans] at hx
+    exact hr.2 x hx
+
+/-- in an accepting class no `B`-block is ever refused -/
+theorem not_refused {B : Header → Prop} {Good : State → Prop} (hA : Accepting B Good) {x : Header} (hx : B x) :
+    ¬ Refused (GoodB B Good) x := by
+  rintro ⟨st, hr, hps, hf⟩
+  have := (hA.save st x hr.1 hx hps).1
+  rw [this] at hf; cases hf
 
 structure StepOut (U : Universe) (Good : State → Prop) (s : State) (b : Header) (s' : State) : Prop where
   inv : Inv U s'
@@ -36,267 +434,26 @@ theorem deliver_step {U : Universe} {B : Header → Prop} {Good : State → Prop
     {s : State} {b : Header} (hI : Inv U s) (hG : Good s) (hNL : NoLeft s) (hBo : ∀ o ∈ s.orphans, B o)
     (hb : Coh U b) (hBb : B b) (hfresh : ¬ stored s b.id) (hnp : ¬ s.isOrphan b.id = true)
     (hfuel : s.orphans.length ≤ s.defs.length) : StepOut U Good s b (deliver s b) := by
-  have hne : ¬ Early s b := by
-    intro he
-    have := he.1
-    unfold stored at hfresh
-    simp only [Bool.or_eq_true] at this
-    rcases this with h | h
-    · exact hfresh h
-    · exact hnp h
-  unfold deliver
-  rcases processBlock_cases s b with ⟨he, _⟩ | ⟨_, hnpar, e⟩ | ⟨_, hpar, hf, _⟩ | ⟨_, hpar, hok, e, _⟩
-  · exact absurd he hne
-  · -- parent unknown: the block joins the pool
-    rw [e]
-    have hp := orphanAdd_poolOnly s b
-    have hst : ∀ i, stored (s.orphanAdd b) i ↔ stored s i := fun i => by rw [stored_iff, stored_iff, hp.headers]
-    have ho : (s.orphanAdd b).orphans = s.orphans ++ [b] := by rw [orphanAdd_orphans, if_neg hnp]
-    refine ⟨inv_orphanAdd hI hb hfresh, hA.add s b hG, ?_, hp.defs, fun i h => (hst i).mpr h,
-      fun i h => Or.inl ((hst i).mp h), ?_, ?_, ?_⟩
-    · intro o hm
-      rw [hst]
-      rw [ho, List.mem_append] at hm
-      rcases hm with hm | hm
-      · exact hNL o hm
-      · simp at hm; subst hm; exact hnpar
-    · intro o hm
-      rw [ho, List.mem_append] at hm
-      rcases hm with hm | hm
-      · exact Or.inl hm
-      · simp at hm; exact Or.inr hm
-    · intro o hm; right; rw [ho]; exact List.mem_append_left _ hm
-    · right; rw [ho]; simp
-  · have := (hA.save s b hG hBb hpar).1
-    rw [this] at hf; cases hf
-  · -- parent stored: the block and everything waiting under it is connected
-    rw [e]
-    obtain ⟨_, hG1⟩ := hA.save s b hG hBb hpar
-    have hI1 := inv_saveBlock hI hb
-    have g1 := grow_saveBlock hI hb
-    have hst1 := stored_saveBlock_true hok
-    have hs1 : stored (s.saveBlock b).1 b.id := (hst1 _).mpr (Or.inl rfl)
-    have hsub1 : ∀ x, x ∈ (s.saveBlock b).1.orphans → x ∈ s.orphans := fun x hx => ((g1.mem_orphans x).mp hx).1
-    let R : State → Prop := fun st => Good st ∧ ∀ o ∈ st.orphans, B o
-    have hR : ∀ (st : State) (ob : Header), R st → ob ∈ st.orphans → stored st ob.parent → R (st.saveBlock ob).1 := by
-      intro st ob hr hm hps
-      obtain ⟨hok', hg'⟩ := hA.save st ob hr.1 (hr.2 ob hm) hps
-      refine ⟨hg', ?_⟩
-      obtain ⟨_, _, _, _, ho', _⟩ := saveBlock_true_fields hok'
-      intro o hmo
-      rw [ho'] at hmo
-      exact hr.2 o (List.mem_filter.mp hmo).1
-    have hR1 : R (s.saveBlock b).1 := ⟨hG1, fun o hm => hBo o (hsub1 o hm)⟩
-    obtain ⟨g2, r2, snd2, cmp2⟩ := ssbSpec hR (s.saveBlock b).1.fuel (s.saveBlock b).1 b.id hI1 hR1 hs1
-    have hlen : (s.saveBlock b).1.orphans.length ≤ (s.saveBlock b).1.fuel := by
-      have h1 : (s.saveBlock b).1.orphans.length ≤ s.orphans.length := by
-        rw [g1.pool]; exact List.length_filter_le _ _
-      have h2 := fuel_ge_defs (s.saveBlock b).1
-      rw [g1.defs] at h2
-      omega
-    have cmp := cmp2 hlen
-    have g02 := g1.trans g2
-    have hst3 : ∀ i, stored ((connect s b).tryReorganize (connect s b).bestChain).1 i ↔ stored (connect s b) i := by
-      intro i; rw [stored_iff, stored_iff]; simp
-    have ho3 : ((connect s b).tryReorganize (connect s b).bestChain).1.orphans = (connect s b).orphans := by simp
-    have hnl2 : NoLeft (connect s b) := by
-      intro x hx hpx
-      have hx1 : x ∈ (s.saveBlock b).1.orphans := ((g2.mem_orphans x).mp hx).1
-      have hns : ¬ stored (connect s b) x.id := g2.inv.disjoint x hx
-      have hcase : x.parent = b.id ∨ NewS (s.saveBlock b).1 (connect s b) x.parent := by
-        by_cases e1 : stored (s.saveBlock b).1 x.parent
-        · rcases (hst1 _).mp e1 with e2 | e2
-          · exact Or.inl e2
-          · exact absurd e2 (hNL x (hsub1 x hx1))
-        · exact Or.inr ⟨hpx, e1⟩
-      obtain ⟨st, hr, hps, hrf⟩ := cmp x hx1 hcase hns
-      have := (hA.save st x hr.1 (hBo x (hsub1 x hx1)) hps).1
-      rw [this] at hrf; cases hrf
-    refine ⟨inv_tryReorganize g2.inv _, hA.reorg _ _ r2.1, ?_, ?_, ?_, ?_, ?_, ?_, ?_⟩
-    · intro o hm
-      rw [hst3]
-      rw [ho3] at hm
-      exact hnl2 o hm
-    · simp only [tryReorganize_defs]; exact g02.defs
-    · intro i h; exact (hst3 i).mpr (g02.mono i h)
-    · intro i h
-      have h2 := (hst3 i).mp h
-      by_cases e1 : stored (s.saveBlock b).1 i
-      · rcases (hst1 i).mp e1 with e2 | e2
-        · exact Or.inr (Or.inl e2)
-        · exact Or.inl e2
-      · obtain ⟨o, hm, hid, _⟩ := snd2 i ⟨h2, e1⟩
-        exact Or.inr (Or.inr ⟨o, hsub1 o hm, hid⟩)
-    · intro o hm
-      rw [ho3] at hm
-      exact Or.inl ((g02.mem_orphans o).mp hm).1
-    · intro o hm
-      by_cases e1 : stored (connect s b) o.id
-      · exact Or.inl ((hst3 _).mpr e1)
-      · right; rw [ho3]; exact (g02.mem_orphans o).mpr ⟨hm, e1⟩
-    · exact Or.inl ((hst3 _).mpr (g2.mono _ hs1))
-
-/-- a valid block of the universe: a copy of the block with its id, one higher than its parent -/
-structure Valid (U : Universe) (b : Header) : Prop where
-  coh : Coh U b
-  height : b.height = U.height b.parent + 1
-
-/-- invariant of a delivery run: `D` is the list of blocks delivered so far -/
-structure RunInv (U : Universe) (Good : State → Prop) (s0 : State) (D : List Header) (s : State) : Prop where
-  inv : Inv U s
-  good : Good s
-  noLeft : NoLeft s
-  defs : s.defs = s0.defs
-  mono : ∀ i, stored s0 i → stored s i
-  storedSub : ∀ i, stored s i → stored s0 i ∨ i ∈ D.map (·.id)
-  poolSub : ∀ o ∈ s.orphans, o ∈ D
-  all : ∀ d ∈ D, stored s d.id ∨ d ∈ s.orphans
-
-theorem run_deliver {U : Universe} {B : Header → Prop} {Good : State → Prop} (hA : Accepting B Good) {s0 : State}
-    (σ : List Header) :
-    ∀ (D : List Header) (s : State), RunInv U Good s0 D s → ((D ++ σ).map (·.id)).Nodup →
-      (∀ b ∈ D ++ σ, B b ∧ Coh U b ∧ ¬ stored s0 b.id) → (D ++ σ).length ≤ s0.defs.length →
-      RunInv U Good s0 (D ++ σ) (σ.foldl deliver s) := by
-  induction σ with
-  | nil => intro D s h _ _ _; simpa using h
-  | cons b σ ih =>
-    intro D s h hnd hall hlen
-    have hbm : b ∈ D ++ b :: σ := by simp
-    obtain ⟨hBb, hcb, hfr⟩ := hall b hbm
-    have hbD : b.id ∉ D.map (·.id) := by
-      rw [List.map_append, List.nodup_append] at hnd
-      intro hm
-      exact hnd.2.2 _ hm b.id (by simp) rfl
-    have hfresh : ¬ stored s b.id := by
-      intro hs
-      rcases h.storedSub _ hs with e | e
-      · exact hfr e
-      · exact hbD e
-    have hnp : ¬ s.isOrphan b.id = true := by
-      rw [isOrphan_iff]
-      intro hm
-      obtain ⟨o, ho, hid⟩ := List.mem_map.mp hm
-      exact hbD (List.mem_map.mpr ⟨o, h.poolSub o ho, hid⟩)
-    have hBo : ∀ o ∈ s.orphans, B o := fun o ho => (hall o (List.mem_append_left _ (h.poolSub o ho))).1
-    have hfuel : s.orphans.length ≤ s.defs.length := by
-      have h1 : (s.orphans.map (·.id)).Subperm (D.map (·.id)) := by
-        apply List.subperm_of_subset h.inv.pool.nodup
-        intro i hi
-        obtain ⟨o, ho, hid⟩ := List.mem_map.mp hi
-        exact List.mem_map.mpr ⟨o, h.poolSub o ho, hid⟩
-      have h2 := h1.length_le
-      simp only [List.length_map, List.length_append] at h2 hlen
-      rw [h.defs]
-      omega
-    have st := deliver_step hA h.inv h.good h.noLeft hBo hcb hBb hfresh hnp hfuel
-    have hnext : RunInv U Good s0 (D ++ [b]) (deliver s b) := by
-      refine ⟨st.inv, st.good, st.noLeft, by rw [st.defs, h.defs], fun i hi => st.mono i (h.mono i hi), ?_, ?_, ?_⟩
-      · intro i hi
-        rcases st.newStored i hi with e | e | ⟨o, ho, hid⟩
-        · rcases h.storedSub i e with e' | e'
-          · exact Or.inl e'
-          · right; rw [List.map_append]; exact List.mem_append_left _ e'
-        · right; rw [e]; simp
-        · right; rw [List.map_append]
-          exact List.mem_append_left _ (List.mem_map.mpr ⟨o, h.poolSub o ho, hid⟩)
-      · intro o ho
-        rcases st.poolSub o ho with e | e
-        · exact List.mem_append_left _ (h.poolSub o e)
-        · rw [e]; simp
-      · intro d hd
-        rw [List.mem_append] at hd
-        rcases hd with hd | hd
-        · rcases h.all d hd with e | e
-          · exact Or.inl (st.mono _ e)
-          · exact st.poolKept d e
-        · simp at hd; subst hd; exact st.delivered
-    have := ih (D ++ [b]) (deliver s b) hnext (by simpa using hnd) (by simpa using hall) (by simpa using hlen)
-    simpa using this
-
-theorem alist_nil_of_get_none {α : Type} {l : List (Nat × α)} (h : ∀ p, alistGet l p = none) : l = [] := by
-  cases l with
-  | nil => rfl
-  | cons p l =>
-    have := h p.1
-    rw [alistGet_cons] at this
-    simp at this
-
-/-- **delivery-order theorem** (model level) -/
-theorem delivery_order {U : Universe} {B : Header → Prop} {Good : State → Prop} (hA : Accepting B Good) {s0 : State}
-    (hI0 : Inv U s0) (hG0 : Good s0) (he : s0.orphans = []) {bs : List Header}
-    (hv : ∀ b ∈ bs, B b ∧ Valid U b) (hnd : (bs.map (·.id)).Nodup) (hfresh : ∀ b ∈ bs, ¬ stored s0 b.id)
-    (hclosed : ∀ b ∈ bs, stored s0 b.parent ∨ b.parent ∈ bs.map (·.id)) (hdefs : bs.length ≤ s0.defs.length)
-    {σ : List Header} (hσ : σ.Perm bs) :
-    (∀ b ∈ bs, stored (σ.foldl deliver s0) b.id) ∧ (σ.foldl deliver s0).orphans = [] ∧
-    (σ.foldl deliver s0).prevOrphans = [] ∧
-    (∀ i, stored (σ.foldl deliver s0) i ↔ stored s0 i ∨ i ∈ bs.map (·.id)) ∧
-    Inv U (σ.foldl deliver s0) ∧ Good (σ.foldl deliver s0) := by
-  have h0 : RunInv U Good s0 [] s0 := by
-    refine ⟨hI0, hG0, ?_, rfl, fun _ h => h, fun _ h => Or.inl h, ?_, ?_⟩
-    · intro o ho; rw [he] at ho; simp at ho
-    · intro o ho; rw [he] at ho; simp at ho
-    · intro d hd; simp at hd
-  have hr := run_deliver hA σ [] s0 h0 (by simpa using (hσ.map (·.id)).nodup_iff.mpr hnd)
-    (by
-      intro b hb
-      simp only [List.nil_append] at hb
-      have hb' := hσ.mem_iff.mp hb
-      exact ⟨(hv b hb').1, (hv b hb').2.coh, hfresh b hb'⟩)
-    (by simpa [hσ.length_eq] using hdefs)
-  simp only [List.nil_append] at hr
-  set s' := σ.foldl deliver s0
-  -- the pool is empty: a member of minimal height would have a stored parent
-  have hpool : ∀ n, ∀ o ∈ s'.orphans, o.height = n → False := by
-    intro n
-    induction n using Nat.strongRecOn with
-    | _ n ihn =>
-      intro o ho hh
-      have hob : o ∈ bs := hσ.mem_iff.mp (hr.poolSub o ho)
-      rcases hclosed o hob with e | e
-      · exact hr.noLeft o ho (hr.mono _ e)
-      · obtain ⟨c, hc, hid⟩ := List.mem_map.mp e
-        rcases hr.all c (hσ.mem_iff.mpr hc) with e1 | e1
-        · exact hr.noLeft o ho (by rw [← hid]; exact e1)
-        · have hlt : c.height < n := by
-            have h1 := (hv o hob).2.height
-            have h2 := (hv c hc).2.coh.2
-            rw [← hid, ← h2] at h1
-            omega
-          exact ihn c.height hlt c e1 rfl
-  have hemp : s'.orphans = [] := by
-    cases e : s'.orphans with
-    | nil => rfl
-    | cons o os => exact (hpool o.height o (by rw [e]; simp) rfl).elim
-  have hprev : s'.prevOrphans = [] := by
-    apply alist_nil_of_get_none
-    intro p
-    rw [hr.inv.pool.get, hemp]
-    rfl
-  have hall : ∀ b ∈ bs, stored s' b.id := by
-    intro b hb
-    rcases hr.all b (hσ.mem_iff.mpr hb) with e | e
-    · exact e
-    · rw [hemp] at e; simp at e
-  refine ⟨hall, hemp, hprev, ?_, hr.inv, hr.good⟩
-  intro i
-  constructor
-  · intro h
-    rcases hr.storedSub i h with e | e
+  have st := deliver_step_gen (accepting_closed hA) hI ⟨hG, hBo⟩ hNL hb hBb hfresh hnp hfuel
+  refine ⟨st.inv, st.r.1, st.noLeft, st.defs, st.mono, st.newStored, st.poolSub, ?_, ?_⟩
+  · intro o ho
+    rcases st.poolFate o ho with e | e | e
     · exact Or.inl e
-    · exact Or.inr ((hσ.map (·.id)).mem_iff.mp e)
-  · rintro (e | e)
-    · exact hr.mono i e
-    · obtain ⟨b, hb, hid⟩ := List.mem_map.mp e
-      rw [← hid]; exact hall b hb
+    · exact Or.inr e
+    · exact absurd e (not_refused hA (hBo o ho))
+  · rcases st.delivered with e | e | e
+    · exact Or.inl e
+    · exact Or.inr e
+    · exact absurd e (not_refused hA hBb)
 
 /-- all ancestors of `b` inside the delivered set `bs` were delivered, down to a block of the store -/
 inductive Rooted (s0 : State) (bs : List Header) : Header → Prop
   | base {b : Header} : b ∈ bs → stored s0 b.parent → Rooted s0 bs b
   | step {b c : Header} : b ∈ bs → c ∈ bs → c.id = b.parent → Rooted s0 bs c → Rooted s0 bs b
 
-/-- **delivery of an arbitrary (not parent-closed) block set**: whatever the order, the connected
-    blocks are exactly those all of whose ancestors were delivered; the others wait in the pool,
-    and no orphan whose parent is stored is left -/
+/-- **delivery of an arbitrary (not parent-closed) block set in an accepting class**: whatever the
+    order, the connected blocks are exactly those all of whose ancestors were delivered; the others
+    wait in the pool, and no orphan whose parent is stored is left -/
 theorem delivery_general {U : Universe} {B : Header → Prop} {Good : State → Prop} (hA : Accepting B Good) {s0 : State}
     (hI0 : Inv U s0) (hG0 : Good s0) (he : s0.orphans = []) {bs : List Header}
     (hv : ∀ b ∈ bs, B b ∧ Valid U b) (hnd : (bs.map (·.id)).Nodup) (hfresh : ∀ b ∈ bs, ¬ stored s0 b.id)
@@ -306,13 +463,15 @@ theorem delivery_general {U : Universe} {B : Header → Prop} {Good : State → 
     (∀ o ∈ (σ.foldl deliver s0).orphans, o ∈ bs) ∧
     NoLeft (σ.foldl deliver s0) ∧
     (∀ i, stored s0 i → stored (σ.foldl deliver s0) i) ∧
+    (∀ i, stored (σ.foldl deliver s0) i → stored s0 i ∨ i ∈ bs.map (·.id)) ∧
     Inv U (σ.foldl deliver s0) ∧ Good (σ.foldl deliver s0) := by
-  have h0 : RunInv U Good s0 [] s0 := by
-    refine ⟨hI0, hG0, ?_, rfl, fun _ h => h, fun _ h => Or.inl h, ?_, ?_⟩
+  have h0 : RunInvG U (GoodB B Good) s0 [] s0 := by
+    refine ⟨hI0, ⟨hG0, ?_⟩, ?_, rfl, fun _ h => h, fun _ h => Or.inl h, ?_, ?_⟩
+    · intro o ho; rw [he] at ho; simp at ho
     · intro o ho; rw [he] at ho; simp at ho
     · intro o ho; rw [he] at ho; simp at ho
     · intro d hd; simp at hd
-  have hr := run_deliver hA σ [] s0 h0 (by simpa using (hσ.map (·.id)).nodup_iff.mpr hnd)
+  have hr := run_deliver_gen (accepting_closed hA) σ [] s0 h0 (by simpa using (hσ.map (·.id)).nodup_iff.mpr hnd)
     (by
       intro b hb
       simp only [List.nil_append] at hb
@@ -321,9 +480,13 @@ theorem delivery_general {U : Universe} {B : Header → Prop} {Good : State → 
     (by simpa [hσ.length_eq] using hdefs)
   simp only [List.nil_append] at hr
   set s' := σ.foldl deliver s0
-  have hall : ∀ b ∈ bs, stored s' b.id ∨ b ∈ s'.orphans := fun b hb => hr.all b (hσ.mem_iff.mpr hb)
+  have hall : ∀ b ∈ bs, stored s' b.id ∨ b ∈ s'.orphans := by
+    intro b hb
+    rcases hr.fate b (hσ.mem_iff.mpr hb) with e | e | e
+    · exact Or.inl e
+    · exact Or.inr e
+    · exact absurd e (not_refused hA (hv b hb).1)
   have hexcl : ∀ b, b ∈ s'.orphans → ¬ stored s' b.id := fun b hb => hr.inv.disjoint b hb
-  -- rooted blocks are stored
   have hroot : ∀ b, Rooted s0 bs b → stored s' b.id := by
     intro b hb
     induction hb with
@@ -335,7 +498,6 @@ theorem delivery_general {U : Universe} {B : Header → Prop} {Good : State → 
       rcases hall b hm with e | e
       · exact e
       · exact absurd (hid ▸ ih) (hr.noLeft b e)
-  -- stored blocks of the set are rooted (induction on the height)
   have hstored : ∀ n, ∀ b ∈ bs, b.height = n → stored s' b.id → Rooted s0 bs b := by
     intro n
     induction n using Nat.strongRecOn with
@@ -361,14 +523,70 @@ theorem delivery_general {U : Universe} {B : Header → Prop} {Good : State → 
             omega
           exact Rooted.step hb hcb hcid (ihn c.height hlt c hcb rfl (hcid ▸ e0))
   refine ⟨fun b hb => ⟨hstored b.height b hb rfl, hroot b⟩, ?_, fun o ho => hσ.mem_iff.mp (hr.poolSub o ho),
-    hr.noLeft, hr.mono, hr.inv, hr.good⟩
-  intro b hb
+    hr.noLeft, hr.mono, ?_, hr.inv, hr.r.1⟩
+  · intro b hb
+    constructor
+    · intro hm hro
+      exact hexcl b hm (hroot b hro)
+    · intro hn
+      rcases hall b hb with e | e
+      · exact absurd (hstored b.height b hb rfl e) hn
+      · exact e
+  · intro i hi
+    rcases hr.storedSub i hi with e | e
+    · exact Or.inl e
+    · exact Or.inr ((hσ.map (·.id)).mem_iff.mp e)
+
+/-- a parent-closed set is rooted -/
+theorem rooted_of_closed {U : Universe} {s0 : State} {bs : List Header} (hv : ∀ b ∈ bs, Valid U b)
+    (hclosed : ∀ b ∈ bs, stored s0 b.parent ∨ b.parent ∈ bs.map (·.id)) :
+    ∀ n, ∀ b ∈ bs, b.height = n → Rooted s0 bs b := by
+  intro n
+  induction n using Nat.strongRecOn with
+  | _ n ihn =>
+    intro b hb hh
+    rcases hclosed b hb with e | e
+    · exact Rooted.base hb e
+    · obtain ⟨c, hc, hid⟩ := List.mem_map.mp e
+      have hlt : c.height < n := by
+        have h1 := (hv b hb).height
+        have h2 := (hv c hc).coh.2
+        rw [← hid, ← h2] at h1
+        omega
+      exact Rooted.step hb hc hid (ihn c.height hlt c hc rfl)
+
+/-- **delivery-order theorem** (model level, accepting class) -/
+theorem delivery_order {U : Universe} {B : Header → Prop} {Good : State → Prop} (hA : Accepting B Good) {s0 : State}
+    (hI0 : Inv U s0) (hG0 : Good s0) (he : s0.orphans = []) {bs : List Header}
+    (hv : ∀ b ∈ bs, B b ∧ Valid U b) (hnd : (bs.map (·.id)).Nodup) (hfresh : ∀ b ∈ bs, ¬ stored s0 b.id)
+    (hclosed : ∀ b ∈ bs, stored s0 b.parent ∨ b.parent ∈ bs.map (·.id)) (hdefs : bs.length ≤ s0.defs.length)
+    {σ : List Header} (hσ : σ.Perm bs) :
+    (∀ b ∈ bs, stored (σ.foldl deliver s0) b.id) ∧ (σ.foldl deliver s0).orphans = [] ∧
+    (σ.foldl deliver s0).prevOrphans = [] ∧
+    (∀ i, stored (σ.foldl deliver s0) i ↔ stored s0 i ∨ i ∈ bs.map (·.id)) ∧
+    Inv U (σ.foldl deliver s0) ∧ Good (σ.foldl deliver s0) := by
+  obtain ⟨h1, h2, h3, _, h5, h6, h7, h8⟩ := delivery_general hA hI0 hG0 he hv hnd hfresh hdefs hσ
+  have hro := rooted_of_closed (fun b hb => (hv b hb).2) hclosed
+  have hall : ∀ b ∈ bs, stored (σ.foldl deliver s0) b.id := fun b hb => (h1 b hb).mpr (hro b.height b hb rfl)
+  have hemp : (σ.foldl deliver s0).orphans = [] := by
+    cases e : (σ.foldl deliver s0).orphans with
+    | nil => rfl
+    | cons o os =>
+      have ho : o ∈ (σ.foldl deliver s0).orphans := by rw [e]; simp
+      have hob := h3 o ho
+      exact absurd (hro o.height o hob rfl) ((h2 o hob).mp ho)
+  have hprev : (σ.foldl deliver s0).prevOrphans = [] := by
+    apply alist_nil_of_get_none
+    intro p
+    rw [h7.pool.get, hemp]
+    rfl
+  refine ⟨hall, hemp, hprev, ?_, h7, h8⟩
+  intro i
   constructor
-  · intro hm hro
-    exact hexcl b hm (hroot b hro)
-  · intro hn
-    rcases hall b hb with e | e
-    · exact absurd (hstored b.height b hb rfl e) hn
-    · exact e
+  · exact h6 i
+  · rintro (e | e)
+    · exact h5 i e
+    · obtain ⟨b, hb, hid⟩ := List.mem_map.mp e
+      rw [← hid]; exact hall b hb
 
 end BytomModel.Lemmas.NodeDelivery
